@@ -3,6 +3,8 @@ import ShellOp.Proofs.Retry
 import ShellOp.Proofs.HookOutput
 import ShellOp.Proofs.Wait
 import ShellOp.Proofs.Payload
+import ShellOp.Proofs.TransMetrics
+import ShellOp.Proofs.MetricsText
 /-!
 # C04 — failed runs are retried until success and block the queue unless allowFailure
 
@@ -791,6 +793,29 @@ example : runOk (.exited 0) "{\"group\":\"g\",\"name\":\"h\",\"action\":\"observ
     ∧ runOk (.exited 0) "{\"name\":\"h\",\"action\":\"expire\"}".toList true = false
     ∧ (fromReader "{\"group\":\"g\",\"name\":\"h\",\"action\":\"observe\",\"value\":1,\"buckets\":[1,2]}".toList).map
         (·.map applyOp) = some [.nothing] := by decide
+
+/-- **C04.10 tie T4 `translated_validation_accepts_only_applied`**: `ValidateMetricOperation` as
+TRANSLATED from the Go source on every run (`Generated/Trans.lean`, number of errors appended) accepts
+only operations that `sendBatchV0` / `applyGroupOperations` apply with an effect: for every decoded
+document `m` and every typed reading `op` of it (same presence of the members, same action), no
+error from the translated function ⇒ `applyOp m = effect`. -/
+theorem translated_validation_accepts_only_applied (m : ShellOp.HookOutput.MetricOp) (op : ShellOp.Metrics.Op)
+    (h : ShellOp.MetricsText.abstracts m op = true) (hv : Trans.validateMetricOperation op = 0) :
+    ShellOp.HookOutput.applyOp m = .effect := by
+  have hu : Facts.c16UngroupedActions = ["set", "add", "observe"] := by decide
+  have hg : Facts.c16GroupedActions = ["expire", "set", "add"] := by decide
+  have hvalid := (ShellOp.Proofs.TransMetrics.validate_op_iff op hu hg).mp hv
+  rw [← ShellOp.MetricsText.validOp_of_abstracts m op h hu hg] at hvalid
+  exact ShellOp.HookOutput.validOp_applied m hvalid
+
+/-- Non-vacuity: a grouped add is a reading the translated validation accepts; the grouped observe is
+a reading it rejects. -/
+example :
+    ShellOp.MetricsText.abstracts { group := "g".toList, name := "c".toList, action := "add".toList, value := true }
+      { group := 1, name := 2, action := "add", value := some 2 } = true
+    ∧ Trans.validateMetricOperation { group := 1, name := 2, action := "add", value := some 2 } = 0
+    ∧ Trans.validateMetricOperation { group := 1, name := 2, action := "observe", value := some 2, buckets := true } ≠ 0 := by
+  decide
 
 /-! ## C04.8 "a back-off delay never shorter than the initial delay": `CancelTaskDelay`
 
